@@ -62,6 +62,15 @@ def generate(ctx):
             recs += q
             if len(q) >= 2 or any(o == "I" for r in q for o, _ in r["cigar"]):
                 nontriv = True
+        # a query whose ONLY difference sits on the first or the last coordinate of a coding feature (or of the genome)
+        edge = []
+        if rng.random() < 0.5:
+            for k in range(rng.randint(1, 2)):
+                f = rng.choice(feats)
+                p = rng.choice([min(f.positions()), max(f.positions()), max(f.positions()), 1, L])
+                t = list(genome)
+                t[p - 1] = rng.choice([c for c in "ACGT" if c != t[p - 1]])
+                edge.append({"name": "edge%d" % k, "flag": 0, "pos": 0, "cigar": [("M", L)], "seq": "".join(t), "exact": True})
         # queries differ from the reference
         for r in recs:
             s = list(r["seq"])
@@ -69,6 +78,7 @@ def generate(ctx):
                 if rng.random() < 0.08:
                     s[i] = rng.choice("ACGTN")
             r["seq"] = "".join(s)
+        recs += edge
         # overlapping records of one query must still agree: rebuild from a per-query truth is skipped; drop conflicts
         from_file = rng.random() < 0.6
         # -r given as a file whose sequence is NOT the one embedded in the annotation (a lineage / masked reference with
@@ -81,7 +91,7 @@ def generate(ctx):
                 g2[i] = rng.choice([c for c in "ACGT" if c != g2[i]])
             genome = "".join(g2)
         refb = gen.layout(rng, [("REF", genome)], "plain")
-        samb = samgen.render_sam("REF", L, recs)
+        samb = samgen.render_sam("REF", L, recs, trail=rng.random() > 0.12)
         append = rng.random() < 0.6
         s, e = (-1, -1)
         r = rng.random()
